@@ -531,6 +531,14 @@ class ChartRun(object):
             build.cbs[(sname, sig)] = cb
             c.register_signal_callback(build.h[sname], getattr(ev.signals, sig), cb)
         ob = self.do(op, f)
+      elif k in ('clear_spy', 'clear_trace'):
+        # the logs are emptied between steps; what later steps add is judged relative to what is there
+        ob = self.do(op, (lambda: c.clear_spy()) if k == 'clear_spy' else (lambda: c.clear_trace()))
+      elif k == 'live':
+        # live output switched on or off between steps
+        def f():
+          c.live_spy, c.live_trace = bool(op[1]), bool(op[2])
+        ob = self.do(op, f)
       elif k == 'read':
         def f():
           out = {}
